@@ -75,7 +75,7 @@ def run_cmd(cmd, cwd, timeout, mem_gb=None, env=None):
 # Kani output classification
 # ----------------------------------------------------------------------------
 CHECK_RE = re.compile(
-    r'Check \d+: (?P<id>\S+)\n\s+- Status: (?P<status>\w+)\n\s+- Description: "(?P<desc>.*?)"\n\s+- Location: (?P<loc>[^\n]*)', re.S)
+    r'Check \d+: (?P<id>[^\n]+)\n\s+- Status: (?P<status>\w+)\n\s+- Description: "(?P<desc>[^\n]*)"\n\s+- Location: (?P<loc>[^\n]*)')
 
 
 def classify_kani(out, rc, timed_out, expect):
@@ -226,7 +226,7 @@ class Run:
             info['kani_output_tail'] = out[-1500:]
             return info
         added = after[len(before):] if after.startswith(before) else after
-        tests = re.findall(r'/// Check for `(\w+)`: "(.*?)"\s*\n\s*(#\[test\]\s*fn (kani_concrete_playback_\w+)\(\).*?\n\}\n)', added, re.S)
+        tests = re.findall(r'/// Check for `(\w+)`: "([^\n]*)"[ \t]*\n(?:[ \t]*///[^\n]*\n|[ \t]*\n)*\s*(#\[test\]\s*fn (kani_concrete_playback_\w+)\(\).*?\n\}\n)', added, re.S)
         descs = [f['desc'].strip('"') for f in res['failed']]
         cands = [t for t in tests if t[0] != 'cover' and any(d and d in t[1] for d in descs)]
         if not cands:
@@ -246,12 +246,14 @@ class Run:
         panics = re.findall(r'panicked at [^\n]*\n[^\n]*', out)
         info['native_panics'] = panics
         info['native_output'] = out[-2500:]
-        # the native run must fail one of the *same* checks the verifier reported
+        # the native run must fail one of the *same* checks the verifier reported: either the same harness assertion
+        # (message match), or -- when the verifier reported a panic/overflow/bounds check outside the harness --
+        # a panic raised inside the real source files
         descs = [f['desc'].strip('"') for f in res['failed']]
         same = [p for p in panics if any(d and d in p for d in descs)]
-        other_overflow = [p for p in panics if any(k in p for k in ('overflow', 'out of bounds', 'unwrap', 'Expected', 'must be of type', 'cannot be'))
-                          and any(k in ' '.join(descs) for k in ('overflow', 'index out of bounds', 'unwrap', 'panic', 'Expected', 'cannot'))]
-        info['native_failed'] = bool(rc != 0 and (same or other_overflow))
+        verifier_saw_code_panic = any('verif_' not in f['loc'] and 'vspec' not in f['loc'] for f in res['failed'])
+        real_src_panic = [p for p in panics if re.search(r'panicked at src/(?!verif_|vspec)[\w/]+\.rs', p)]
+        info['native_failed'] = bool(rc != 0 and (same or (verifier_saw_code_panic and real_src_panic)))
         if rc != 0 and not info['native_failed']:
             info['reason'] = 'native run failed, but not on a check the verifier reported'
         return info
